@@ -5,6 +5,9 @@ import (
 	"encoding/json"
 	"fmt"
 	"math/rand"
+	"os"
+	"os/exec"
+	"path/filepath"
 	"reflect"
 	"runtime"
 	"sort"
@@ -166,7 +169,11 @@ func c17purity(c *core.Ctx) {
 	r := c.R
 	defer ResetDefaults()
 	c.Eval()
+	failedCalls(c, 8)
 	root := c17map(r)
+	if r.Intn(6) == 0 {
+		c.Add("purity:aliased-submaps", int64(jv.Alias(r, root, 1+r.Intn(2), func(k string) bool { return strings.HasPrefix(k, "-") || k == "#text" })))
+	}
 	m := mxj.Map(root)
 	before := jv.Fp(root)
 	orig := jv.Copy(root)
@@ -359,6 +366,70 @@ func c17purity(c *core.Ctx) {
 
 // ---------------- concurrency round ----------------
 
+// C17GobChild: a fresh process in which nobody has registered the nested types with encoding/gob; n goroutines, released
+// together, make the first Gob calls of the process. Prints one result per goroutine.
+func C17GobChild(n int) {
+	res := make([]string, n)
+	start := make(chan struct{})
+	var wg sync.WaitGroup
+	for g := 0; g < n; g++ {
+		wg.Add(1)
+		go func(g int) {
+			defer wg.Done()
+			<-start
+			pm := mxj.Map{"doc": map[string]interface{}{"l": []interface{}{1.5, "x", map[string]interface{}{"k": float64(g)}}}}
+			b, e := pm.Gob()
+			if e != nil {
+				res[g] = "ERR"
+				if !strings.Contains(e.Error(), "type not registered") {
+					res[g] += " " + e.Error()
+				}
+				return
+			}
+			back, e2 := mxj.NewMapGob(b)
+			res[g] = fmt.Sprint("ok ", jv.Fp(back) == jv.Fp(pm), e2)
+		}(g)
+	}
+	close(start)
+	wg.Wait()
+	b, _ := json.Marshal(res)
+	fmt.Println("C17CHILD " + string(b))
+}
+
+func c17gobChildren(c *core.Ctx, n int) {
+	self, err := os.Executable()
+	if err != nil {
+		c.Harness("c17: " + err.Error())
+		return
+	}
+	run := func(k int) []string {
+		out, err := exec.Command(self, "-c17child", fmt.Sprint(k)).Output()
+		i := strings.Index(string(out), "C17CHILD ")
+		if err != nil || i < 0 {
+			c.Harness(fmt.Sprintf("c17 gob child failed: %v %s", err, out))
+			return nil
+		}
+		var res []string
+		json.Unmarshal([]byte(strings.TrimSpace(string(out)[i+9:])), &res)
+		return res
+	}
+	seq := run(1)
+	conc := run(n)
+	if len(seq) != 1 || len(conc) != n {
+		return
+	}
+	c.Count("conc:fresh-process-first-gob-rounds")
+	for g, r := range conc {
+		if r != seq[0] {
+			c.Violate("c17-result-differs:first-Gob-calls-of-a-process", "the first Gob calls of a fresh process return different results when made concurrently than when made alone", core.D{"goroutines": n, "goroutine": g, "concurrent": conc, "sequential": seq[0]})
+			return
+		}
+	}
+}
+
+var c17fileSeq int64
+var c17gobRoundDone bool
+
 type c17op struct {
 	kind string
 	f    func() string // result fingerprint
@@ -399,6 +470,9 @@ func c17round(c *core.Ctx) {
 	defer runtime.GOMAXPROCS(old)
 	c.NonTrivial(fmt.Sprint(c.Index, G, procs))
 
+	if c.Index%4 == 1 {
+		c17gobChildren(c, []int{2, 4, 8, 16}[r.Intn(4)])
+	}
 	sharedRoot := c17map(r)
 	shared := mxj.Map(sharedRoot)
 	sharedFp := jv.Fp(sharedRoot)
@@ -429,14 +503,101 @@ func c17round(c *core.Ctx) {
 	c.Max("max:private-map-rows", int64(bigN))
 	var mkOp func() c17op
 	mkOp = func() c17op {
-		x := r.Intn(26)
-		if x >= 24 {
+		x := r.Intn(34)
+		if x == 24 || x == 25 {
 			if bigBudget <= 0 {
 				x = r.Intn(24)
 			}
 			bigBudget--
 		}
 		switch x {
+		case 26:
+			p := pathString(genPath(r, sharedRoot, pool, true, false))
+			k := pool[r.Intn(len(pool))]
+			return c17op{"q:ValueForPath/ValueForKey/Exists", func() string {
+				v, e := shared.ValueForPath(p)
+				_, e2 := shared.ValueForKey(k) // (which of several hits comes first follows map iteration order: only the error is compared)
+				ex, e3 := shared.Exists(p)
+				s, e4 := shared.ValueForPathString(p)
+				return jv.Fp(v) + fmt.Sprint(e, e2, ex, e3, s, e4)
+			}}
+		case 27:
+			na := r.Intn(2) == 0
+			return c17op{"q:Leaf*(no_attr option)", func() string {
+				var s []string
+				for _, l := range shared.LeafNodes(na) {
+					s = append(s, l.Path+"="+jv.Fp(l.Value))
+				}
+				return sortedStrings(s) + sortedStrings(shared.LeafPaths(na)) + fmt.Sprint(len(shared.LeafValues(na)))
+			}}
+		case 28:
+			p := pathString(genPath(r, sharedRoot, pool, false, false))
+			return c17op{"q:Elements/Attributes/Root", func() string {
+				el, e := shared.Elements(p)
+				at, e2 := shared.Attributes(p)
+				rt, e3 := shared.Root()
+				sort.Strings(el)
+				sort.Strings(at)
+				return fmt.Sprint(el, e, at, e2, rt, e3)
+			}}
+		case 29:
+			// private Maps only: a multi-valued query next to first-value queries of other goroutines
+			n := 3 + r.Intn(5)
+			return c17op{"p:private-queries", func() string {
+				l := make([]interface{}, n)
+				for i := range l {
+					l[i] = map[string]interface{}{"id": float64(i), "-a": "x", "#text": "t"}
+				}
+				pm := mxj.Map{"doc": map[string]interface{}{"row": l, "-attr": "1", "one": "v"}}
+				vs, e := pm.ValuesForPath("doc.row.id")
+				v1, e1 := pm.ValueForPath("doc.row.id")
+				ks, e2 := pm.ValuesForKey("id")
+				k1, e3 := pm.ValueForKey("id")
+				full, noat := pm.LeafNodes(), pm.LeafNodes(true)
+				return fpVals(vs, e) + jv.Fp(v1) + fmt.Sprint(e1) + fpVals(ks, e2) + jv.Fp(k1) + fmt.Sprint(e3, len(full), len(noat))
+			}}
+		case 30, 31:
+			// private Maps written to (and read back from) files of their own in one shared directory
+			id := atomic.AddInt64(&c17fileSeq, 1)
+			json := x == 31
+			return c17op{"p:private-file-write-read", func() string {
+				fn := filepath.Join(c19scratch(), fmt.Sprintf("c17-%d-%d", os.Getpid(), id))
+				defer os.Remove(fn)
+				ms := mxj.Maps{mxj.Map{"doc": map[string]interface{}{"id": float64(id), "t": "text"}}, mxj.Map{"second": map[string]interface{}{"id": float64(-id)}}}
+				var we, re error
+				var back mxj.Maps
+				if json {
+					we = ms.JsonFile(fn)
+					back, re = mxj.NewMapsFromJsonFile(fn)
+				} else {
+					we = ms.XmlFileIndent(fn, "", " ")
+					back, re = mxj.NewMapsFromXmlFile(fn)
+				}
+				s := fmt.Sprint(we, re, len(back))
+				for _, b := range back {
+					s += jv.Fp(b)
+				}
+				return s
+			}}
+		case 32:
+			return c17op{"p:private-Gob", func() string {
+				pm := mxj.Map{"doc": map[string]interface{}{"l": []interface{}{1.5, "x", map[string]interface{}{"k": "v"}}}}
+				b, e := pm.Gob()
+				if e != nil {
+					if strings.Contains(e.Error(), "type not registered") {
+						return "ERR gob: type not registered"
+					}
+					return "ERR " + e.Error()
+				}
+				back, e2 := mxj.NewMapGob(b)
+				return jv.Fp(back) + fmt.Sprint(e2)
+			}}
+		case 33:
+			return c17op{"e:MapSeq.Xml+Indent", func() string {
+				b, e := sharedSeq.Xml()
+				b2, e2 := sharedSeq.XmlIndent("", "  ")
+				return string(b) + fmt.Sprint(e) + string(b2) + fmt.Sprint(e2)
+			}}
 		case 24:
 			return c17op{"p:large-private-Json", func() string {
 				m := mkBig()
@@ -494,6 +655,9 @@ func c17round(c *core.Ctx) {
 			return c17op{"e:Gob", func() string {
 				b, e := shared.Gob()
 				if e != nil {
+					if strings.Contains(e.Error(), "type not registered") {
+						return "ERR gob: type not registered" // (which nested type gob meets first follows map iteration order)
+					}
 					return "ERR" + e.Error()
 				}
 				m, e := mxj.NewMapGob(b)
@@ -564,6 +728,25 @@ func c17round(c *core.Ctx) {
 			} else {
 				want[g] = append(want[g], op.f()) // sequential result, computed beforehand
 			}
+		}
+	}
+	if !gobRegistered && !c17gobRoundDone && concurrentFirst {
+		// process without registered gob types: its very first Gob calls are made by all goroutines at once
+		c17gobRoundDone = true
+		c.Count("conc:first-gob-calls-concurrent")
+		for g := 0; g < G; g++ {
+			plan[g][0] = c17op{"p:private-Gob(first in process)", func() string {
+				pm := mxj.Map{"doc": map[string]interface{}{"l": []interface{}{1.5, "x", map[string]interface{}{"k": "v"}}}}
+				b, e := pm.Gob()
+				if e != nil {
+					if strings.Contains(e.Error(), "type not registered") {
+						return "ERR gob: type not registered"
+					}
+					return "ERR " + e.Error()
+				}
+				back, e2 := mxj.NewMapGob(b)
+				return jv.Fp(back) + fmt.Sprint(e2)
+			}}
 		}
 	}
 	// ---- concurrent execution ----
